@@ -3547,6 +3547,8 @@ class BsDecomp(Output):
     def _plot_core(self, data):
         if self.thresholds is None or len(self.thresholds) != 1:
             verif.util.error("Murphy plot needs a single threshold (use -r)")
+        if re.compile(".*within.*").match(self.bin_type):
+            verif.util.error("A 'within' bin type cannot be used in this diagram")
 
         bsrel = verif.metric.BsRel()
         bsres = verif.metric.BsRes()
